@@ -78,9 +78,15 @@ func RunOne(p *sym.Program, name string, o Options) *HarnessRun {
 	solver := smt.NewSolver(ex.Ctx())
 	if o.Tier > 0 {
 		solver.TimeoutMS = 120000
-		solver.CrossEvery = 10
+		solver.CrossEvery = 20
+		solver.CrossTimeoutMS = 10000
 	} else {
-		solver.CrossEvery = 25
+		solver.CrossEvery = 50
+	}
+	if d := os.Getenv("GOSMT_DUMP"); d != "" {
+		solver.DumpDir = d
+		solver.DumpSlowMS = 500
+		_ = os.MkdirAll(d, 0o755)
 	}
 	defer solver.Close()
 	ex.SetSolver(solver)
